@@ -81,8 +81,17 @@ type Obj struct {
 	ID   int
 	T    types.Type
 	V    Value    // boxed value (structured)
-	Buf  *ByteBuf // byte buffer objects
+	Buf  *ByteBuf // byte buffer objects (several Obj may share one ByteBuf: mappings of one file)
 	Name string
+	Dead bool // unmapped view
+	Lim  int  // view length in bytes (0: whole buffer)
+}
+
+func bufN(o *Obj) int {
+	if o.Lim > 0 {
+		return o.Lim
+	}
+	return o.Buf.N
 }
 
 func (p *Path) newObj(t types.Type, v Value, name string) *Obj {
@@ -305,7 +314,7 @@ func appendPath(path []PathEl, el PathEl) []PathEl {
 // ---- byte buffer access ----
 
 func (p *Path) bufCheck(o *Obj) {
-	if o.Buf.Dead {
+	if o.Buf.Dead || o.Dead {
 		p.fault("access through unmapped memory (%s)", o.Name)
 	}
 }
@@ -314,21 +323,21 @@ func (p *Path) bufRead(o *Obj, off *Term) *Term {
 	b := o.Buf
 	p.bufCheck(o)
 	if i, ok := p.cint(off); ok {
-		if i >= b.N && i < (b.N+7)/8*8 {
+		if i >= bufN(o) && i < (bufN(o)+7)/8*8 {
 			return p.tt.Fresh("padding", BV(8)) // allocation padding: arbitrary content
 		}
-		if i < 0 || i >= b.N {
-			p.fault("byte read out of buffer %s: %d/%d", o.Name, i, b.N)
+		if i < 0 || i >= bufN(o) {
+			p.fault("byte read out of buffer %s: %d/%d", o.Name, i, bufN(o))
 		}
 		if b.Cells != nil {
 			return b.Cells[i]
 		}
 		return p.tt.Select(b.Arr, off)
 	}
-	if b.Cells != nil && b.N <= 64 {
+	if b.Cells != nil && bufN(o) <= 64 {
 		// ite chain
-		r := b.Cells[b.N-1]
-		for i := b.N - 2; i >= 0; i-- {
+		r := b.Cells[bufN(o)-1]
+		for i := bufN(o) - 2; i >= 0; i-- {
 			r = p.tt.Ite(p.tt.Eq(off, p.tt.Const(64, uint64(i))), b.Cells[i], r)
 		}
 		return r
@@ -349,17 +358,17 @@ func (p *Path) bufRead(o *Obj, off *Term) *Term {
 			for k := len(idx) - 1; k >= 0; k-- {
 				r = p.tt.Ite(p.tt.Eq(off, p.tt.Const(64, uint64(idx[k]))), b.Cells[idx[k]], r)
 			}
-			if b.N%8 == 0 {
+			if bufN(o)%8 == 0 {
 				return r
 			}
-			return p.tt.Ite(p.tt.Ult(off, p.tt.Const(64, uint64(b.N))), r, p.tt.Fresh("padding", BV(8)))
+			return p.tt.Ite(p.tt.Ult(off, p.tt.Const(64, uint64(bufN(o)))), r, p.tt.Fresh("padding", BV(8)))
 		}
 	}
 	b.toArray(p.tt)
 	r := p.tt.Select(b.Arr, off)
-	if b.N%8 != 0 {
+	if bufN(o)%8 != 0 {
 		// bytes in the allocation padding are arbitrary
-		r = p.tt.Ite(p.tt.Ult(off, p.tt.Const(64, uint64(b.N))), r, p.tt.Fresh("padding", BV(8)))
+		r = p.tt.Ite(p.tt.Ult(off, p.tt.Const(64, uint64(bufN(o)))), r, p.tt.Fresh("padding", BV(8)))
 	}
 	return r
 }
@@ -368,8 +377,8 @@ func (p *Path) bufWrite(o *Obj, off *Term, v *Term) {
 	b := o.Buf
 	p.bufCheck(o)
 	if i, ok := p.cint(off); ok {
-		if i < 0 || i >= b.N {
-			p.fault("byte write out of buffer %s: %d/%d", o.Name, i, b.N)
+		if i < 0 || i >= bufN(o) {
+			p.fault("byte write out of buffer %s: %d/%d", o.Name, i, bufN(o))
 		}
 		if b.Cells != nil {
 			b.Cells[i] = v
@@ -378,8 +387,8 @@ func (p *Path) bufWrite(o *Obj, off *Term, v *Term) {
 		b.Arr = p.tt.Store(b.Arr, off, v)
 		return
 	}
-	if b.Cells != nil && b.N <= 64 {
-		for i := 0; i < b.N; i++ {
+	if b.Cells != nil && bufN(o) <= 64 {
+		for i := 0; i < bufN(o); i++ {
 			b.Cells[i] = p.tt.Ite(p.tt.Eq(off, p.tt.Const(64, uint64(i))), v, b.Cells[i])
 		}
 		return
@@ -419,10 +428,10 @@ func (p *Path) bufBounds(o *Obj, off *Term, n int) {
 	if _, ok := p.cint(off); ok {
 		return // checked on access
 	}
-	lim := p.tt.Const(64, uint64((o.Buf.N+7)/8*8-n))
+	lim := p.tt.Const(64, uint64((bufN(o)+7)/8*8-n))
 	okc := p.tt.Ule(off, lim)
 	if !p.branch(okc) {
-		p.fault("memory access outside buffer %s (len %d)", o.Name, o.Buf.N)
+		p.fault("memory access outside buffer %s (len %d)", o.Name, bufN(o))
 	}
 }
 
